@@ -38,7 +38,7 @@ Definition xstep_ok (p : program) (f : fn) (fi : N) (ci : option key) (base p0 p
         firstn (nn (base - 1)) (x_stack x') = firstn (nn (base - 1)) (x_stack x)
   end.
 
-(* ---- machines that differ in stack / heap / cells / arrays only ---- *)
+(* ---- machines that differ in stack / heap / cells / arrays / queued tasks only ---- *)
 Definition lite (x1 x' : xmach) : Prop :=
   x_ss x' = x_ss x1 /\ x_cls x' = x_cls x1 /\ m_globals (x_core x') = m_globals (x_core x1) /\
   m_pos (x_core x') = m_pos (x_core x1) /\ m_state (x_core x') = m_state (x_core x1).
@@ -65,6 +65,10 @@ Proof. intros; repeat split. Qed.
 Lemma lite_set_heap : forall x h, lite x (set_heap x h).
 Proof. intros; repeat split. Qed.
 Lemma lite_set_cells : forall x c, lite x (set_cells x c).
+Proof. intros; repeat split. Qed.
+Lemma lite_set_arr : forall x a, lite x (set_arr x a).
+Proof. intros; repeat split. Qed.
+Lemma lite_set_tasks : forall x t, lite x (set_tasks x t).
 Proof. intros; repeat split. Qed.
 Lemma lite_trans : forall x1 x2 x3, lite x1 x2 -> lite x2 x3 -> lite x1 x3.
 Proof. intros x1 x2 x3 (A1 & A2 & A3 & A4 & A5) (B1 & B2 & B3 & B4 & B5). repeat split; congruence. Qed.
@@ -285,7 +289,7 @@ Section Step.
 
   (* ---------- the instructions of the closure layer ---------- *)
   Definition xlocal_op (o : xop) : Prop :=
-    match o with XOld _ | XCallCls _ _ _ | XCallInd _ _ _ => False | _ => True end.
+    match o with XOld _ | XCallCls _ _ _ | XCallInd _ _ _ | XGetArr _ _ _ | XSetArr _ _ _ => False | _ => True end.
 
   Lemma known_fn_spec : forall ci a x fr g, frs p f fi ci base p0 a x -> known_fn p a fr = Some g ->
     exists k, xsget base x fr = Some k /\ rd1 (p_funs p) (Z.to_N k) = Some g.
@@ -313,7 +317,7 @@ Section Step.
 
   Lemma xstep_sound : forall ci a o x fl succs,
     xflow p f pc a o = Some succs -> xlocal_op o -> frs p f fi ci base p0 a x -> xok p x ->
-    xstep_ok p f fi ci base p0 pc x succs (xstep A p true f base ci o x fl).
+    xstep_ok p f fi ci base p0 pc x succs (xstep p true f base ci o x fl).
   Proof.
     intros ci a o x fl succs Hflow Hloc F Hok.
     destruct o; cbn [xlocal_op] in Hloc; try contradiction; cbn [xflow] in Hflow; cbn [xstep].
@@ -419,8 +423,9 @@ Section Step.
       destruct (sm_get (x_heap x) (kraw v)) as [o|]; [|reflexivity].
       destruct (n <=? lenN (h_data o)); [|reflexivity].
       eapply ok_dyn; [exact F|apply dgood_refl; exact Hok|apply lite_set_heap|reflexivity].
-    - discriminate.
-    - discriminate.
-    - discriminate.
+    - (* XAllocArr *)
+      inversion Hflow; subst succs.
+      destruct (arr_alloc (x_arr x) es (repeat 0%Z (nn (len * es)))) as [a' key].
+      eapply ok_dyn_write; [exact F|apply dgood_refl; exact Hok|apply lite_set_arr|reflexivity|reflexivity].
   Qed.
 End Step.
